@@ -1,7 +1,14 @@
 /-
   C14 — property theorems about the ErrFlow model (GojaModel.C14.Model).  Every theorem quantifies over ALL
-  chains (any depth, any mix of the 18 frame kinds, any host entry); proofs are by induction on the chain
+  chains (any depth, any mix of the 25 frame kinds, any host entry); proofs are by induction on the chain
   (GojaModel.C14.Lemmas / Carry / CarryGo).  Only theorems (and labelled examples) live here.
+
+  Frame predicates used in hypotheses (Model.lean):
+    swallows  a catch without rethrow, or an async function (its promise is rejected with the value)
+    unwraps   an ExportTo'd func with an error result (wrapJSFunc hands the Go caller the Go error in `.value`)
+    rewraps   a native frame that returns fmt.Errorf("%w", err) (the value becomes a GoError around a wrapper)
+    rethrows  a catch block with `throw e`, or a native frame doing panic(ex.Value()) (new *Exception, same value)
+    isSplit   the rest of the chain runs as a promise job (Promise.then / `await`)
 -/
 import GojaModel.C14.CarryGo
 
@@ -13,168 +20,223 @@ namespace GojaModel.C14
 
 /-- A catchable payload `v` (thrown by script, or panicked as a Value by a native function) reaches the host as
 an *Exception whose Value() is `v` itself — or, if the chain passes through promise jobs, as the rejection
-reason `v` of the derived promise — unless a JS frame swallowed it; and every catch block on the way received
-`v` itself.  `hu`: the only mechanism that replaces the value is wrapJSFunc's unwrapping of a Go error stored
-in `v.value` (an ExportTo'd func with an error result: XFE frame or exported entry), so either `v` holds no Go
-error or no such func is on the way (that case is covered by `goerror_unwrap_thrown`). -/
+reason `v` — unless a frame swallowed it; every catch block on the way received `v` itself.  Native frames that
+re-raise with `panic(ex.Value())`, generator bodies, for-of loops with open iterators are all allowed.
+`hu`: the only mechanisms that replace the value are wrapJSFunc's unwrapping of a Go error stored in `v.value`
+(covered by `goerror_unwrap_thrown`) and a native frame that wraps the error (`hrw`; covered by
+`identity_reachable`). -/
 theorem identity_preserved (entry : Entry) (chain : List Frame) (p : Payload) (v : JsVal)
     (hp : p = .jsThrow v ∨ p = .natPanicVal v)
-    (hsw : ∀ f ∈ chain, f.swallows = false)
+    (hsw : ∀ f ∈ chain, f.swallows = false) (hrw : ∀ f ∈ chain, f.rewraps = false)
     (hu : v.goErrValue = none ∨ (entry ≠ .exported ∧ ∀ f ∈ chain, f.unwraps = false)) :
-    (Frame.pr ∉ chain → ∃ ex, (hostRun entry chain p).host = .err (.exc ex) ∧ ex.val = v ∧
+    (hasSplit chain = false → ∃ ex, (hostRun entry chain p).host = .err (.exc ex) ∧ ex.val = v ∧
         (hostRun entry chain p).rej = []) ∧
-    (Frame.pr ∈ chain → (hostRun entry chain p).host = .ok ∧ (hostRun entry chain p).rej = [v]) ∧
+    (hasSplit chain = true → (hostRun entry chain p).host = .ok ∧ (hostRun entry chain p).rej = [v]) ∧
     (∀ l ∈ (hostRun entry chain p).log, ∀ w, l.kind = .caught w → w = v) := by
   have hc : Carries v p.flow := by
     rcases hp with rfl | rfl <;> simp [Payload.flow, Carries]
-  obtain ⟨h1, h2, h3⟩ := hostRun_carries entry chain p hc hsw hu
+  obtain ⟨h1, h2, h3⟩ := hostRun_carries entry chain p hc hsw hrw hu
   refine ⟨h1, h2, ?_⟩
   intro l hl w hw
-  rcases h3 l hl with h | h
-  · rw [h] at hw; cases hw
-  · rw [h] at hw; cases hw; rfl
+  rcases h3 l hl with h | h | h | h <;> rw [h] at hw <;> cases hw
+  rfl
 
-/-- Even when some JS frame swallows the exception: what every catch block received is `v` itself. -/
+/-- Even when some frame swallows the exception: what every catch block received, and the reason every async
+function's promise was rejected with, is `v` itself. -/
 theorem catch_receives_identity (entry : Entry) (chain : List Frame) (p : Payload) (v : JsVal)
-    (hp : p = .jsThrow v ∨ p = .natPanicVal v)
+    (hp : p = .jsThrow v ∨ p = .natPanicVal v) (hrw : ∀ f ∈ chain, f.rewraps = false)
     (hu : v.goErrValue = none ∨ ∀ f ∈ chain, f.unwraps = false) :
-    ∀ l ∈ (hostRun entry chain p).log, ∀ w, l.kind = .caught w → w = v := by
+    ∀ l ∈ (hostRun entry chain p).log, ∀ w, (l.kind = .caught w ∨ l.kind = .asyncReject w) → w = v := by
   have hc : Carries v p.flow := by
     rcases hp with rfl | rfl <;> simp [Payload.flow, Carries]
   intro l hl w hw
-  rcases hostRun_log_ok entry chain p hc hu l hl with h | h
-  · rw [h] at hw; cases hw
-  · rw [h] at hw; cases hw; rfl
+  rcases hostRun_log_ok entry chain p hc hrw hu l hl with h | h | h | h <;>
+    rcases hw with hw | hw <;> rw [h] at hw <;> cases hw <;> rfl
+
+/-- Native frames that wrap the error (`fmt.Errorf("%w", err)`) allowed, any number, mixed with everything else:
+the host's error still reaches, by repeated errors.Unwrap, an *Exception whose Value() is `v`. -/
+theorem identity_reachable (entry : Entry) (chain : List Frame) (p : Payload) (v : JsVal)
+    (hp : p = .jsThrow v ∨ p = .natPanicVal v)
+    (hsw : ∀ f ∈ chain, f.swallows = false)
+    (hu : v.goErrValue = none ∨ (entry ≠ .exported ∧ ∀ f ∈ chain, f.unwraps = false))
+    (hn : hasSplit chain = false) :
+    ∃ ev, (hostRun entry chain p).host = .err ev ∧ v ∈ ev.excVals := by
+  have hc : Carries v p.flow := by
+    rcases hp with rfl | rfl <;> simp [Payload.flow, Carries]
+  exact hostRun_reaches entry chain p hc hsw hu hn
 
 /-! ### goerror_unwrap -/
 
-/-- A Go error `e` returned by a reflect-wrapped native function: for every chain without a swallowing catch the
-host is handed an error from which `e` is reached — errors.Is / errors.As on it give exactly what they give on
-`e` (via Exception.Unwrap on the GoError wrapper, or `e` itself where an ExportTo'd func unwrapped it, or `e`
-raw if it wraps an uncatchable error).  Through promise jobs: the rejection reason is a GoError holding `e`. -/
+/-- A Go error `e` returned by a reflect-wrapped native function: for every chain without a swallowing frame the
+host is handed an error that carries a Go error `e'` which reaches `e` by errors.Unwrap (`e' = e` unless a native
+frame wrapped it on the way): errors.Is that holds for `e` holds for the host's error; without wrapping frames
+errors.Is / errors.As give exactly what they give on `e`.  Through promise jobs: the rejection reason is a GoError
+holding `e'` (or the host gets `e'` raw if it is uncatchable). -/
 theorem goerror_unwrap (entry : Entry) (chain : List Frame) (e : GoErr)
     (hsw : ∀ f ∈ chain, f.swallows = false) :
-    (Frame.pr ∉ chain → ∃ ev, (hostRun entry chain (.natReturn (some e))).host = .err ev ∧
-        ev.carried = some e ∧ (∀ t, ev.errIs t = e.errIs t) ∧ ev.errAs = e.errAs) ∧
-    (Frame.pr ∈ chain →
+    ∃ e', e'.chainHas e = true ∧ ((∀ f ∈ chain, f.rewraps = false) → e' = e) ∧
+    (hasSplit chain = false → ∃ ev, (hostRun entry chain (.natReturn (some e))).host = .err ev ∧
+        ev.carried = some e' ∧ (∀ t, e.errIs t = true → ev.errIs t = true) ∧
+        ((∀ f ∈ chain, f.rewraps = false) → (∀ t, ev.errIs t = e.errIs t) ∧ ev.errAs = e.errAs)) ∧
+    (hasSplit chain = true →
       ((hostRun entry chain (.natReturn (some e))).host = .ok ∧
-        ∃ w, (hostRun entry chain (.natReturn (some e))).rej = [w] ∧ w.goErrValue = some e ∧
+        ∃ w, (hostRun entry chain (.natReturn (some e))).rej = [w] ∧ w.goErrValue = some e' ∧
           w.isGoErrorInstance = true) ∨
-      ((hostRun entry chain (.natReturn (some e))).host = .err (.go e) ∧ e.isUncatchable = true)) := by
+      ((hostRun entry chain (.natReturn (some e))).host = .err (.go e') ∧ e'.isUncatchable = true)) := by
   have hc : CarriesGo e (Payload.natReturn (some e)).flow := by
     by_cases hu : e.isUncatchable = true <;>
-      simp [Payload.flow, wrapReflectErr, hu, CarriesGo, JsVal.wrapsGo, JsVal.goErrValue, JsVal.isGoErrorInstance]
-  obtain ⟨h1, h2⟩ := hostRun_carriesGo entry chain _ hc hsw
-  refine ⟨fun hn => ?_, h2⟩
+      simp [Payload.flow, wrapReflectErr, hu, CarriesGo, JsVal.wrapsGo, JsVal.goErrValue, JsVal.isGoErrorInstance,
+        JsVal.key, JsKey.isGoErrorInstance]
+  obtain ⟨e', t1, r1, h1, h2⟩ := hostRun_carriesGo entry chain _ hc hsw
+  refine ⟨e', t1, r1, fun hn => ?_, h2⟩
   obtain ⟨ev, a, b⟩ := h1 hn
-  exact ⟨ev, a, b, carried_errIs b, carried_errAs b⟩
+  refine ⟨ev, a, b, ?_, ?_⟩
+  · intro t ht
+    rw [carried_errIs b]
+    exact GoErr.chainHas_errIs t1 t ht
+  · intro hrw
+    have := r1 hrw
+    subst this
+    exact ⟨carried_errIs b, carried_errAs b⟩
 
 /-- The same for a GoError object thrown by script (`throw g`) or panicked by a native function, with any number
-of ExportTo'd funcs on the way: the wrapper object may be replaced, the Go error inside stays reachable. -/
+of ExportTo'd funcs / wrapping frames on the way: the wrapper object may be replaced, the Go error stays
+reachable. -/
 theorem goerror_unwrap_thrown (entry : Entry) (chain : List Frame) (p : Payload) (g : JsVal) (e : GoErr)
     (hp : p = .jsThrow g ∨ p = .natPanicVal g)
     (hg : g.goErrValue = some e ∧ g.isGoErrorInstance = true)
-    (hsw : ∀ f ∈ chain, f.swallows = false) (hn : Frame.pr ∉ chain) :
-    ∃ ev, (hostRun entry chain p).host = .err ev ∧ ev.carried = some e ∧
-      (∀ t, ev.errIs t = e.errIs t) ∧ ev.errAs = e.errAs := by
+    (hsw : ∀ f ∈ chain, f.swallows = false) (hn : hasSplit chain = false) :
+    ∃ ev, (hostRun entry chain p).host = .err ev ∧ (∀ t, e.errIs t = true → ev.errIs t = true) ∧
+      ((∀ f ∈ chain, f.rewraps = false) → ev.carried = some e ∧ (∀ t, ev.errIs t = e.errIs t) ∧ ev.errAs = e.errAs) := by
   have hc : CarriesGo e p.flow := by
     rcases hp with rfl | rfl <;> simpa [Payload.flow, CarriesGo, JsVal.wrapsGo] using hg
-  obtain ⟨ev, a, b⟩ := (hostRun_carriesGo entry chain p hc hsw).1 hn
-  exact ⟨ev, a, b, carried_errIs b, carried_errAs b⟩
+  obtain ⟨e', t1, r1, h1, _⟩ := hostRun_carriesGo entry chain p hc hsw
+  obtain ⟨ev, a, b⟩ := h1 hn
+  refine ⟨ev, a, ?_, ?_⟩
+  · intro t ht
+    rw [carried_errIs b]
+    exact GoErr.chainHas_errIs t1 t ht
+  · intro hrw
+    have := r1 hrw
+    subst this
+    exact ⟨b, carried_errIs b, carried_errAs b⟩
 
 /-! ### uncatchable_invisible -/
 
-/-- An error that the classifier treats as uncatchable (InterruptedError, StackOverflowError, or an error whose
-errors.Unwrap chain reaches one) is returned to the host as that very error, and NO catch block and NO finally
-block of the chain observes it: the script-visible log is exactly what the segments before the throwing one log
-when they complete normally (nothing at all when the chain has no promise-job frame). -/
+/-- The classifier (`errors.As` over the whole wrap tree, joins included) equals the spec-level notion "some error
+in the wrap tree is an Interrupted/StackOverflow error". -/
+theorem isUncatchable_eq_spec (e : GoErr) : e.isUncatchable = e.containsUncatchable := by
+  induction e <;> simp_all [GoErr.isUncatchable, GoErr.containsUncatchable]
+
+theorem GoErr.isUncatchable_peel (e : GoErr) : e.peel.isUncatchable = e.isUncatchable := by
+  induction e with
+  | wrap i inner ih =>
+    cases i with
+    | zero => simpa [GoErr.peel, GoErr.isUncatchable] using ih
+    | succ n => simp [GoErr.peel]
+  | _ => simp [GoErr.peel]
+
+/-- An uncatchable error is returned to the host as that very error (wrapped once more per wrapping native frame
+it passed: `e'.peel = e.peel`; exactly `e` if the chain has no such frame), and NO catch block, NO finally block
+and NO iterator return() method of the chain observes it: the script-visible log is exactly what the segments
+before the throwing one log when they complete normally (nothing at all without a job frame). -/
 theorem uncatchable_invisible (entry : Entry) (chain : List Frame) (p : Payload) (e : GoErr) (o : StackTop)
     (hp : p.flow = .panic (.goErr e) o) (he : e.isUncatchable = true) :
-    (hostRun entry chain p).host = .err (.go e) ∧ (hostRun entry chain p).rej = [] ∧
+    ∃ e', (hostRun entry chain p).host = .err (.go e') ∧ e'.peel = e.peel ∧ e'.isUncatchable = true ∧
+    ((∀ f ∈ chain, f.rewraps = false) → e' = e) ∧
+    (hostRun entry chain p).rej = [] ∧
     (hostRun entry chain p).log = normalLogs (allSegs chain).dropLast ∧
     (∀ l ∈ (hostRun entry chain p).log, l.kind = .fin) ∧
-    (Frame.pr ∉ chain → (hostRun entry chain p).log = []) := by
-  obtain ⟨h1, h2, h3⟩ := hostRun_unclassifiable entry chain p hp (x := .goErr e) rfl
-  have hh : escapeHost (.goErr e) = .err (.go e) := by
-    simp [escapeHost, recoverUncatchable, asUncatchableException, he, CallRes.toHost]
-  refine ⟨by rw [h1, hh], h2, h3, ?_, ?_⟩
-  · intro l hl; rw [h3] at hl; exact normalLogs_fin _ l hl
-  · intro hn
-    rw [h3]
-    have := (splitSegs_snd_nil_iff chain 0).mpr hn
-    simp [allSegs, this, normalLogs]
+    (hasSplit chain = false → (hostRun entry chain p).log = []) := by
+  obtain ⟨x', hu, hr, h1, h2, h3⟩ := hostRun_unclassifiable entry chain p hp (x := .goErr e) rfl
+  obtain ⟨hu1, hu2, _⟩ := hu
+  cases x' with
+  | goErr e' =>
+    have hpe : e'.peel = e.peel := by simpa [Pv.peel] using hu2
+    have hue : e'.isUncatchable = true := by
+      rw [← GoErr.isUncatchable_peel, hpe, GoErr.isUncatchable_peel]; exact he
+    have hh : escapeHost (.goErr e') = .err (.go e') := by
+      simp [escapeHost, recoverUncatchable, asUncatchableException, hue, CallRes.toHost]
+    refine ⟨e', by rw [h1, hh], hpe, hue, ?_, h2, h3, ?_, ?_⟩
+    · intro hrw
+      have := hr (allSegs_frames (P := fun f => f.rewraps = false) chain hrw)
+      cases this; rfl
+    · intro l hl; rw [h3] at hl; exact normalLogs_fin _ l hl
+    · intro hn
+      rw [h3]
+      have := (splitSegs_snd_nil_iff chain 0).mpr hn
+      simp [allSegs, this, normalLogs]
+  | val w => simp [Pv.peel] at hu2
+  | exc ex => simp [Pv.peel] at hu2
+  | sentinel k => simp [Pv.peel] at hu2
+  | other n => simp [Pv.peel] at hu2
 
 /-- Instances: a real interrupt, a real stack overflow, an uncatchable error returned or panicked by native code. -/
 theorem uncatchable_invisible_interrupt (entry : Entry) (chain : List Frame) (id : Nat) (iface : GoErr) :
-    (hostRun entry chain (.jsInterrupt id iface)).host = .err (.go (.interruptedE id iface)) ∧
+    (∃ e', (hostRun entry chain (.jsInterrupt id iface)).host = .err (.go e') ∧
+      e'.peel = (GoErr.interruptedE id iface).peel) ∧
     (∀ l ∈ (hostRun entry chain (.jsInterrupt id iface)).log, l.kind = .fin) ∧
-    (Frame.pr ∉ chain → (hostRun entry chain (.jsInterrupt id iface)).log = []) := by
-  obtain ⟨a, _, _, c, d⟩ := uncatchable_invisible entry chain (.jsInterrupt id iface) (.interruptedE id iface)
-    .thrower rfl rfl
-  exact ⟨a, c, d⟩
+    (hasSplit chain = false → (hostRun entry chain (.jsInterrupt id iface)).log = []) := by
+  obtain ⟨e', a, b, _, _, _, _, c, d⟩ := uncatchable_invisible entry chain (.jsInterrupt id iface)
+    (.interruptedE id iface) .thrower rfl rfl
+  exact ⟨⟨e', a, b⟩, c, d⟩
 
 theorem uncatchable_invisible_stackOverflow (entry : Entry) (chain : List Frame) (id : Nat) :
-    (hostRun entry chain (.jsStackOverflow id)).host = .err (.go (.stackOverflow id)) ∧
+    (∃ e', (hostRun entry chain (.jsStackOverflow id)).host = .err (.go e') ∧
+      e'.peel = (GoErr.stackOverflow id).peel) ∧
     (∀ l ∈ (hostRun entry chain (.jsStackOverflow id)).log, l.kind = .fin) ∧
-    (Frame.pr ∉ chain → (hostRun entry chain (.jsStackOverflow id)).log = []) := by
-  obtain ⟨a, _, _, c, d⟩ := uncatchable_invisible entry chain (.jsStackOverflow id) (.stackOverflow id)
-    .thrower rfl rfl
-  exact ⟨a, c, d⟩
+    (hasSplit chain = false → (hostRun entry chain (.jsStackOverflow id)).log = []) := by
+  obtain ⟨e', a, b, _, _, _, _, c, d⟩ := uncatchable_invisible entry chain (.jsStackOverflow id)
+    (.stackOverflow id) .thrower rfl rfl
+  exact ⟨⟨e', a, b⟩, c, d⟩
 
-theorem uncatchable_invisible_native (entry : Entry) (chain : List Frame) (e : GoErr) (p : Payload)
-    (hp : p = .natReturn (some e) ∨ p = .natPanicErr e) (he : e.isUncatchable = true) :
-    (hostRun entry chain p).host = .err (.go e) ∧
+/-- Full strength, spec-level: ANY Go error whose wrap tree (fmt.Errorf %w, errors.Join, a wrapped *Exception
+holding a GoError) contains an Interrupted/StackOverflow error, returned or panicked by a native function, is
+handed to the host as an error and is observed by no catch / finally / iterator return() of the chain. -/
+theorem uncatchable_invisible_spec (entry : Entry) (chain : List Frame) (e : GoErr) (p : Payload)
+    (hp : p = .natReturn (some e) ∨ p = .natPanicErr e) (hc : e.containsUncatchable = true) :
+    (∃ e', (hostRun entry chain p).host = .err (.go e') ∧ e'.peel = e.peel) ∧
     (∀ l ∈ (hostRun entry chain p).log, l.kind = .fin) ∧
-    (Frame.pr ∉ chain → (hostRun entry chain p).log = []) := by
+    (hasSplit chain = false → (hostRun entry chain p).log = []) := by
+  have he : e.isUncatchable = true := by rw [isUncatchable_eq_spec]; exact hc
   have hf : p.flow = .panic (.goErr e) .other := by
     rcases hp with rfl | rfl <;> simp [Payload.flow, wrapReflectErr, he]
-  obtain ⟨a, _, _, c, d⟩ := uncatchable_invisible entry chain p e .other hf he
-  exact ⟨a, c, d⟩
+  obtain ⟨e', a, b, _, _, _, _, c, d⟩ := uncatchable_invisible entry chain p e .other hf he
+  exact ⟨⟨e', a, b⟩, c, d⟩
 
-/-- `isUncatchableException` (errors.Unwrap loop) is sound for the spec-level notion "some error in the wrap
-tree is an Interrupted/StackOverflow error" … -/
-theorem isUncatchable_sound (e : GoErr) : e.isUncatchable = true → e.containsUncatchable = true := by
-  induction e <;> simp_all [GoErr.isUncatchable, GoErr.containsUncatchable]
-
-/-- … but not complete: an uncatchable error inside `errors.Join` is classified as an ordinary Go error, becomes
-a catchable GoError, and a script catch block observes it (known finding C14 `joined-uncatchable-is-catchable`,
-patch in fixes/).  Stated as the negation of the spec-level invisibility claim, on a concrete witness. -/
-theorem uncatchable_join_observed_witness :
-    ¬ (∀ (chain : List Frame) (e : GoErr), e.containsUncatchable = true →
-        ∀ l ∈ (hostRun .runString chain (.natReturn (some e))).log, l.kind = .fin) := by
+/-- Regression lemma about the classifier BEFORE fix cbcbe34 (an `errors.Unwrap` loop): it missed an uncatchable
+error inside `errors.Join`, which therefore became a catchable GoError. -/
+theorem uncatchable_join_observed_prefix_witness :
+    ¬ (∀ e : GoErr, e.containsUncatchable = true → e.isUncatchableUnwrapLoop = true) := by
   intro h
-  have := h [.js .jc] (.join 7 (.interrupted 5) (.plain 1)) (by decide) ⟨0, .caught (.freshGoError (.join 7 (.interrupted 5) (.plain 1)))⟩
-    (by decide)
-  cases this
-
-/-- The spec-level claim restricted to what the code implements (no uncatchable error hidden behind a join on
-the Unwrap path): `_partial` because of the witness above. -/
-theorem uncatchable_invisible_spec_partial (entry : Entry) (chain : List Frame) (e : GoErr) (p : Payload)
-    (hp : p = .natReturn (some e) ∨ p = .natPanicErr e)
-    (hc : e.containsUncatchable = true) (hj : e.isUncatchable = e.containsUncatchable) :
-    ∀ l ∈ (hostRun entry chain p).log, l.kind = .fin :=
-  (uncatchable_invisible_native entry chain e p hp (by rw [hj]; exact hc)).2.1
+  have := h (.join 7 (.interrupted 5) (.plain 1)) (by decide)
+  revert this
+  decide
 
 /-! ### foreign_panic_passthrough -/
 
 /-- A Go panic value that is neither a goja Value / *Exception / sentinel nor an uncatchable error (an arbitrary
 Go value, a plain Go error, a runtime.Error) reaches the host as that very panic value, through every chain and
-every entry; no catch and no finally block of the chain runs for it. -/
+every entry (no frame wraps or replaces it); no catch, finally or iterator return() of the chain runs for it. -/
 theorem foreign_panic_passthrough (entry : Entry) (chain : List Frame) (p : Payload) (x : Pv)
     (hp : (∃ id, p = .natPanicOther id ∧ x = .other id) ∨
           (∃ e, p = .natPanicErr e ∧ x = .goErr e ∧ e.isUncatchable = false) ∨
           (∃ id, p = .natRuntimeErr id ∧ x = .goErr (.runtimeErr id))) :
     (hostRun entry chain p).host = .panic x ∧ (hostRun entry chain p).rej = [] ∧
     (∀ l ∈ (hostRun entry chain p).log, l.kind = .fin) ∧
-    (Frame.pr ∉ chain → (hostRun entry chain p).log = []) := by
-  have hx : x.unclassifiable = true ∧ p.flow = .panic x .other ∧ escapeHost x = .panic x := by
+    (hasSplit chain = false → (hostRun entry chain p).log = []) := by
+  have hx : x.unclassifiable = true ∧ p.flow = .panic x .other ∧ escapeHost x = .panic x ∧
+      asUncatchableException x = none := by
     rcases hp with ⟨id, rfl, rfl⟩ | ⟨e, rfl, rfl, he⟩ | ⟨id, rfl, rfl⟩
-    · exact ⟨rfl, rfl, rfl⟩
-    · exact ⟨rfl, rfl, by simp [escapeHost, recoverUncatchable, asUncatchableException, he, CallRes.toHost]⟩
+    · exact ⟨rfl, rfl, rfl, rfl⟩
+    · exact ⟨rfl, rfl, by simp [escapeHost, recoverUncatchable, asUncatchableException, he, CallRes.toHost],
+        by simp [asUncatchableException, he]⟩
     · exact ⟨rfl, rfl, by simp [escapeHost, recoverUncatchable, asUncatchableException, GoErr.isUncatchable,
-        CallRes.toHost]⟩
-  obtain ⟨h1, h2, h3⟩ := hostRun_unclassifiable entry chain p hx.2.1 hx.1
-  refine ⟨by rw [h1, hx.2.2], h2, ?_, ?_⟩
+        CallRes.toHost], by simp [asUncatchableException, GoErr.isUncatchable]⟩
+  obtain ⟨x', hu, _, h1, h2, h3⟩ := hostRun_unclassifiable entry chain p hx.2.1 hx.1
+  have hxx : x' = x := hu.2.2 hx.2.2.2
+  subst hxx
+  refine ⟨by rw [h1, hx.2.2.1], h2, ?_, ?_⟩
   · intro l hl; rw [h3] at hl; exact normalLogs_fin _ l hl
   · intro hn
     rw [h3]
@@ -216,34 +278,69 @@ theorem recover_sites_agree (fl : Flow) (a b : Bool) :
 /-! ### stack_top_is_throw_site (partial) -/
 
 /-- PARTIAL (top frame only, and only for the cases below): a value thrown by script that is not an Error object
-with a non-empty own stack reaches the host, through any chain whose JS frames do not rethrow it, in an
+with a non-empty own stack reaches the host, through any chain whose frames do not re-throw or re-wrap it, in an
 *Exception whose stack top is the thrower's `throw` statement.  Missing w.r.t. the property text: the rest of
 the stack; Error objects (their stack is the creation site, by design of `_throw`); values re-thrown by a catch
-block (`throw e` captures a new stack at the rethrow site unless `e` is an Error object). -/
+block or by a native `panic(ex.Value())` (a new stack is captured there unless the value is an Error object). -/
 theorem stack_top_is_throw_site_partial (entry : Entry) (chain : List Frame) (v : JsVal)
     (hv : v.ownStack = none ∨ v.ownStack = some .empty)
     (hsw : ∀ f ∈ chain, f.swallows = false) (hr : ∀ f ∈ chain, f.rethrows = false)
+    (hrw : ∀ f ∈ chain, f.rewraps = false)
     (hu : v.goErrValue = none ∨ (entry ≠ .exported ∧ ∀ f ∈ chain, f.unwraps = false))
-    (hn : Frame.pr ∉ chain) :
+    (hn : hasSplit chain = false) :
     (hostRun entry chain (.jsThrow v)).host = .err (.exc ⟨v, .thrower⟩) := by
   have hex : throwExec .thrower v = ⟨v, .thrower⟩ := by
     rcases hv with h | h <;> simp [throwExec, h]
   have hp : Exact ⟨v, .thrower⟩ (Payload.jsThrow v).flow := by
     simp [Payload.flow, Exact, hex]
-  exact hostRun_exact entry chain _ hp hsw hr hu hn
+  exact hostRun_exact entry chain _ hp hsw hr hrw hu hn
+
+/-! ### Exception.Error() -/
+
+/-- PARTIAL: calling `.Error()` on the error the host was handed returns (does not panic) provided the thrown
+value can be converted to a string.  Missing: values whose ToString throws — see the witness below. -/
+theorem error_method_total_partial (entry : Entry) (chain : List Frame) (p : Payload) (v : JsVal)
+    (hp : p = .jsThrow v ∨ p = .natPanicVal v)
+    (hsw : ∀ f ∈ chain, f.swallows = false) (hrw : ∀ f ∈ chain, f.rewraps = false)
+    (hu : v.goErrValue = none ∨ (entry ≠ .exported ∧ ∀ f ∈ chain, f.unwraps = false))
+    (hn : hasSplit chain = false) (hv : v.unstringifiable = false) :
+    ∃ ev, (hostRun entry chain p).host = .err ev ∧ ev.errorPanics = false := by
+  obtain ⟨ex, a, b, _⟩ := (identity_preserved entry chain p v hp hsw hrw hu).1 hn
+  exact ⟨.exc ex, a, by simp [ErrVal.errorPanics, Exc.errorPanics, b, hv]⟩
+
+/-- The code that exists lets a Go panic escape from `Exception.Error()` / `String()` when the thrown object's
+string conversion throws (known finding C14 `error-method-panics-on-unstringifiable-value`, patch in fixes/):
+negation of "Error() never panics" on a concrete witness. -/
+theorem error_method_panics_witness :
+    ¬ (∀ (entry : Entry) (chain : List Frame) (p : Payload) (ev : ErrVal),
+        (hostRun entry chain p).host = .err ev → ev.errorPanics = false) := by
+  intro h
+  have := h .runString [] (.jsThrow (.objU 1)) (.exc ⟨.objU 1, .thrower⟩) (by decide)
+  revert this
+  decide
 
 /-! ### Non-vacuity: the hypotheses are satisfiable by non-trivial chains (tests on literals, not proofs) -/
 
-/-- depth-8 chain alternating JS frames with try/finally, rethrowing catch, and six native conventions. -/
-example : let chain : List Frame := [.js .jrf, .fc, .js .jf, .rfe, .ct, .js .jr, .gt, .fo]
-    (∀ f ∈ chain, f.swallows = false) ∧ Frame.pr ∉ chain ∧
+/-- depth-10 chain: JS frames with try/finally and rethrowing catch, a for-of loop with an open iterator, a
+generator body with try/finally, six native conventions incl. panic(ex.Value()). -/
+example : let chain : List Frame := [.js .jrf, .fc, .js .jf, .rfe, .ct, .js .jr, .ji, .jgf, .fcv, .fo]
+    (∀ f ∈ chain, f.swallows = false) ∧ (∀ f ∈ chain, f.rewraps = false) ∧ hasSplit chain = false ∧
     (hostRun .runString chain (.jsThrow (.obj 1))).host = .err (.exc ⟨.obj 1, .rethrow true⟩) ∧
     (hostRun .runString chain (.jsThrow (.obj 1))).log =
-      [⟨5, .caught (.obj 1)⟩, ⟨2, .fin⟩, ⟨0, .caught (.obj 1)⟩, ⟨0, .fin⟩] := by decide
+      [⟨7, .fin⟩, ⟨6, .iterReturn⟩, ⟨5, .caught (.obj 1)⟩, ⟨2, .fin⟩, ⟨0, .caught (.obj 1)⟩, ⟨0, .fin⟩] := by decide
 
 example : (hostRun .exported [.xfe, .js .jf, .pr, .rfe] (.natReturn (some (.wrap 3 (.custom 2))))).rej =
     [.freshGoError (.wrap 3 (.custom 2))] := by decide
 
-example : (hostRun .callable [.js .jcf, .fc, .js .jcf] (.jsInterrupt 10 (.plain 9))).log = [] := by decide
+/-- an interrupt closes no iterator, runs no catch, no finally, no generator finally -/
+example : (hostRun .callable [.js .jcf, .ji, .fc, .jgf, .js .jcf] (.jsInterrupt 10 (.plain 9))).log = [] := by decide
+
+/-- a wrapping native frame: the host's error is a GoError around fmt.Errorf("%w", exception(O1)) -/
+example : (hostRun .runString [.js .jf, .rfw, .js .jf] (.jsThrow (.obj 1))).host =
+    .err (.exc ⟨.freshGoError (.wrapExc 0 (.obj 1) .thrower), .other⟩) := by decide
+
+/-- an async function absorbs the exception into its promise -/
+example : (hostRun .runString [.js .jcf, .ja, .js .jf] (.jsThrow (.prim 1))).log =
+    [⟨2, .fin⟩, ⟨1, .asyncReject (.prim 1)⟩, ⟨0, .fin⟩] := by decide
 
 end GojaModel.C14
